@@ -444,8 +444,12 @@ svalue_t *safe_apply (const char *fun, object_t * ob, int num_arg, int where)
   svalue_t *ret;
   error_context_t econ;
 
+  /* apply() always consumes its arguments: do the same on every path that does not reach it */
   if (!save_context (&econ))
-    return 0;
+    {
+      pop_n_elems (num_arg);
+      return 0;
+    }
 
   if (!setjmp (econ.context))
     {
@@ -454,11 +458,16 @@ svalue_t *safe_apply (const char *fun, object_t * ob, int num_arg, int where)
           ret = apply (fun, ob, num_arg, where);
         }
       else
-        ret = 0;
+        {
+          pop_n_elems (num_arg);
+          ret = 0;
+        }
     }
   else
     {
       restore_context (&econ);
+      /* the stack is back where it was when we came in, arguments included */
+      pop_n_elems (num_arg);
       ret = 0;
     }
   pop_context (&econ);
